@@ -521,6 +521,20 @@ def forces_clamp_then_tendon(mjm, st, ids, t):
   return f
 
 
+def force_with_zero_gain(mjm, st, i):
+  """MuJoCo's force of actuator i if its gain were 0 (what a USER gain without callback yields in MJWarp)."""
+  import copy
+
+  m2 = copy.copy(mjm)
+  m2.actuator_gaintype[i] = int(mujoco.mjtGain.mjGAIN_FIXED)
+  m2.actuator_gainprm[i, 0] = 0.0
+  m2.tendon_actfrclimited[:] = 0
+  d2 = mujoco.MjData(m2)
+  mw.apply_state_mj(m2, d2, st)
+  stage(m2, d2)
+  return float(d2.actuator_force[i])
+
+
 def qfrc_from_force(mjm, ref, force):
   q = ref["moment"].T @ force
   grav = not (mjm.opt.disableflags & mujoco.mjtDisableBit.mjDSBL_GRAVITY)
@@ -716,7 +730,7 @@ def run_case(case):
         substituted = True
     for i in user_gain:
       rec.check()
-      if well[i] and abs(fgot[i] - fref[i]) > cmp.VIOL_FACTOR * bound[i]:
+      if well[i] and abs(fgot[i] - fref[i]) > cmp.VIOL_FACTOR * bound[i] and abs(fgot[i] - force_with_zero_gain(mjm, st, i)) <= bound[i] + A * abs(fgot[i]):
         rec.viol(
           "actuator_force:gain-user-without-callback",
           f"gaintype user, no callback installed: MuJoCo uses gain 1 ({fref[i]:.6g}), MJWarp gain 0 ({fgot[i]:.6g}) actuator {i} {ctx}",
@@ -791,7 +805,23 @@ def run_case(case):
           judge_el(rec, "act_next", an_got[~sel], an_ref[~sel], 1e-4, snoise["act"][~sel], ctx=ctx)
         rec.cover("act_next_worlds_rk4", 1)
       elif act_disabled:
-        judge_el(rec, "act_next_actuation_disabled", an_got, an_ref, A, snoise["act"], sig="act_next:actuation-disabled-still-advanced", ctx=ctx + " (ACTUATION disabled: mj_step leaves act untouched)")
+        # classified mechanism: activations still pass through _next_activation (act_dot=0): clamped to actrange; dcmotor
+        # slots integrate on. Everything else must be untouched.
+        pred = an_ref.copy()
+        free = np.zeros(mjm.na, dtype=bool)
+        for o in range(mjm.nu):
+          if mjm.actuator_actadr[o] < 0:
+            continue
+          sl = slice(int(mjm.actuator_actadr[o]), int(mjm.actuator_actadr[o] + mjm.actuator_actnum[o]))
+          if int(mjm.actuator_dyntype[o]) == int(mujoco.mjtDyn.mjDYN_DCMOTOR):
+            free[sl] = True
+          elif mjm.actuator_actlimited[o] and int(mjm.actuator_dyntype[o]) != int(mujoco.mjtDyn.mjDYN_USER):
+            pred[sl] = np.clip(pred[sl], *mjm.actuator_actrange[o])
+        cls = free | ((np.abs(pred - an_ref) > 0) & (np.abs(an_got - pred) <= A * np.maximum(1.0, np.abs(pred))))
+        if cls.any():
+          judge_el(rec, "act_next_actuation_disabled", an_got[cls], an_ref[cls], A, snoise["act"][cls], sig="act_next:actuation-disabled-still-advanced", ctx=ctx + " (ACTUATION disabled: mj_step leaves act untouched)")
+        if (~cls).any():
+          judge_el(rec, "act_next", an_got[~cls], an_ref[~cls], A, snoise["act"][~cls], ctx=ctx)
       else:
         judge_el(rec, "act_next", an_got, an_ref, A, snoise["act"], ctx=ctx)
 
